@@ -12,6 +12,7 @@ import (
 	"errors"
 	"fmt"
 	"io"
+	"os"
 	"path/filepath"
 	"time"
 
@@ -39,6 +40,22 @@ func cpTwin(a *hlSim, r *kit.Rand, lcfg config.Local, tag string) *hlSim {
 	b.dbName = filepath.Join(b.dir, "ledger")
 	b.open()
 	b.m = a.m
+	return b
+}
+
+// cpCloneSim makes an independent simulator (own ledger files, own reference model, own
+// generator) with the genesis and universe of a and a COPY of a's PRNG state. Called right after
+// hlNewSim(a), the clone generates exactly the history a generates (used to run two ledgers in
+// lockstep). The genesis block must be shared: its timestamp is the wall clock.
+func cpCloneSim(a *hlSim, tag string) *hlSim {
+	r := *a.r
+	b := &hlSim{t: a.t, c: a.c, r: &r, cfg: a.cfg, stats: map[string]int{}, genesis: a.genesis, lcfg: a.lcfg, log: a.log, u: a.u}
+	b.dir = a.c.Scratch("cp-" + tag)
+	b.dbName = filepath.Join(b.dir, "ledger")
+	b.open()
+	b.m = hlNewModel()
+	b.m.initGenesis(a.genesis.Block.BlockHeader, a.genesis.Accounts)
+	b.g = hlNewGen(b)
 	return b
 }
 
@@ -375,4 +392,13 @@ func cpLookbackForStateproofs(top *bookkeeping.Block) uint64 {
 	lowest = lowest.SubSaturate(basics.Round(proto.StateProofInterval))
 	lowest = lowest.SubSaturate(basics.Round(proto.StateProofVotersLookback))
 	return uint64(top.Round().SubSaturate(lowest))
+}
+
+func cpCert() agreement.Certificate { return agreement.Certificate{} }
+
+// cpRemove deletes a scratch directory of a finished restore.
+func cpRemove(dir string) {
+	if dir != "" {
+		os.RemoveAll(dir)
+	}
 }
